@@ -52,8 +52,8 @@ def leaf_sources(ns, path, ext_name, nonfirst=False):
     inner_name = back.get(ext_name)
     out = []
     cands = [ins for ins in ns["prog"]["nodes"] if inner_name in [e for _, e in ref.node_outputs(ins)]]
-    for ins in cands:
-        out += leaf_sources(ins, me, inner_name, nonfirst or len(cands) > 1)
+    for j, ins in enumerate(cands):
+        out += leaf_sources(ins, me, inner_name, nonfirst or j > 0)
     return out
 
 
@@ -91,7 +91,9 @@ def deps_of(prog, path=""):
             for k, p in enumerate(prod.get(e, [])):
                 if p is ns:
                     continue
-                for s, nf, leafname in leaf_sources(p, path, e, len(prod.get(e, [])) > 1):
+                # (of several same-name producers the library wires the FIRST listed one: only the others fall under
+                # the known finding)
+                for s, nf, leafname in leaf_sources(p, path, e, k > 0):
                     for t in leaf_targets(ns, path, e):
                         deps.append((s, t, "data", e, False, nf or (("renamed", leafname) if leafname != e else False)))
         if ns["k"] != "sub":
@@ -101,7 +103,7 @@ def deps_of(prog, path=""):
                         continue
                     already = any(e2 == w for _, e2 in ref.node_inputs(ns))
                     if not already:
-                        for s, nf, leafname in leaf_sources(p, path, w, len(prod.get(w, [])) > 1):
+                        for s, nf, leafname in leaf_sources(p, path, w, k > 0):
                             deps.append((s, me, "ordering", w, False, nf))
         for t in ref.gate_targets(ns):
             tn = next((x for x in prog["nodes"] if ref.node_name(x) == t), None)
@@ -359,6 +361,27 @@ def check_interactive(ctx, spec, g, deps, ids, case):
                 )
         # input edges: an edge from the node of input x must reach a consumer of x
         ideps = input_deps_of(spec)
+        # ... and every consumer of x is reached from the (visible) node that shows x: the INPUT node of x, or the
+        # INPUT_GROUP listing x among its parameters
+        carriers = {}
+        for n_ in nodes:
+            if n_["id"] in hidden:
+                continue
+            d_ = n_.get("data", {})
+            if d_.get("nodeType") == "INPUT" and n_["id"].startswith("input_"):
+                carriers.setdefault(n_["id"][len("input_"):], []).append(n_["id"])
+            elif d_.get("nodeType") == "INPUT_GROUP":
+                for p_ in d_.get("params") or []:
+                    carriers.setdefault(p_, []).append(n_["id"])
+        drawn_pairs = {(s_, t_) for s_, t_, _k in drawn}
+        for e_, c_ in sorted(ideps):
+            if e_ not in carriers:
+                continue
+            ctx.obs["input_consumers_checked"] += 1
+            reps_ = set(vis_reps(c_, state))
+            if not any((src_, r_) in drawn_pairs for src_ in carriers[e_] for r_ in reps_):
+                ctx.violation("C20:missing-input-edge", f"state {key}: input {e_!r} is shown ({carriers[e_]}) but no edge leads from it to a visible representative of its consumer {c_} ({sorted(reps_)})", {**c2, "input": e_, "consumer": c_})
+                break
         for s_, t_, k_ in drawn:
             if s_.startswith("input_") and not s_.startswith("input_group_") and t_ in ids:
                 nm = s_[len("input_"):]
@@ -657,6 +680,27 @@ def colliding_id_specs():
     ]
 
 
+def exclusive_container_specs():
+    """Directed shapes. (1) A gate whose two exclusive targets are NESTED GRAPHS that produce one output name at the same
+    depth (either listed first), consumed at the root. (2) One input read by a direct child of a container and by a node
+    inside a container nested in that same container (depth 2), also with a second such input."""
+    def fn(name, params, out):
+        return {"k": "fn", "name": name, "params": [{"n": p} for p in params], "outs": [out]}
+
+    out = []
+    for heavy_first in (True, False):
+        heavy = {"k": "sub", "name": "heavy", "prog": {"name": "heavy", "nodes": [fn("load", ["x"], "loaded"), fn("compute", ["loaded"], "result")], "bind": {}}}
+        light = {"k": "sub", "name": "light", "prog": {"name": "light", "nodes": [fn("finish", ["x"], "result")], "bind": {}}}
+        gate = {"k": "ifelse", "name": "pick", "params": [{"n": "s"}], "key": "s", "t": "heavy", "f": "light", "table": [True, False], "open": False}
+        nodes = [gate] + ([heavy, light] if heavy_first else [light, heavy]) + [fn("consume", ["result"], "out")]
+        out.append({"name": "excl", "nodes": nodes, "bind": {}})
+    for second_input in (False, True):
+        enc = {"k": "sub", "name": "encode", "prog": {"name": "encode", "nodes": [fn("tokenize", ["cleaned", "lang"] + (["mode"] if second_input else []), "tokens")], "bind": {}}}
+        prep = {"k": "sub", "name": "prep", "prog": {"name": "prep", "nodes": [fn("clean", ["text", "lang"] + (["mode"] if second_input else []), "cleaned"), enc], "bind": {}}}
+        out.append({"name": "deepin", "nodes": [prep, fn("use", ["tokens"], "used")], "bind": {}})
+    return out
+
+
 def run(ctx):
     n = 400 if ctx.tier == "quick" else 9000
     core.WARM_P = 0.0
@@ -689,7 +733,7 @@ def run(ctx):
         if (f"{inst}/clean", f"{inst}/tokenize") not in set(flat.edges()):
             ctx.violation("C20:flat-inner-edge-missing", f"the same Graph nested twice: instance {inst} lacks its inner edge clean -> tokenize in to_flat_graph()", {"program": "same graph nested twice"})
     ctx.case({"directed": "same-graph-twice"}, True)
-    directed = (shadowed_substring_specs() + colliding_id_specs()) if ctx.shard[0] == 0 else []
+    directed = (shadowed_substring_specs() + colliding_id_specs() + exclusive_container_specs()) if ctx.shard[0] == 0 else []
     for i in range(n + len(directed)):
         spec = directed[i - n] if i >= n else gen_viz_graph(ctx.rng)
         rt.reset_program()
